@@ -299,7 +299,10 @@ class Gen:
                 "force": rng.random() < 0.6,
             }
         if name == "cached":
-            return {"k": "cached", "spec": self.expr(d)}
+            s = {"k": "cached", "spec": self.expr(d)}
+            if rng.random() < 0.3:
+                s["form"] = "decorator"  # cached(cache)(expression)
+            return s
         if name == "allopts":
             return {"k": "allopts"}
         raise AssertionError(name)
@@ -379,14 +382,16 @@ class Gen:
         elif rng.random() < 0.2:
             d["cache"] = "factory"  # created through one shared, configured decorator (cache=<callable>)
         via = {}
-        if rng.random() < 0.15 and d.get("args"):
-            via["defaults"] = rng.choice(["where", "kwarg"])
+        if rng.random() < 0.2 and d.get("args"):
+            via["defaults"] = rng.choice(["where", "kwarg", "var_kwargs"])
         if d.get("cache") == "nocache" and rng.random() < 0.5:
             via["nocache_property"] = True
         elif d.get("cache") in (None, "memory") and rng.random() < 0.15:
             via["set_cache"] = rng.choice(["instance", "callable"])
         if d.get("effects") and rng.random() < 0.3:
             via["add_effects"] = rng.choice(["all", "one-by-one"])
+        if d.get("effects") and rng.random() < 0.3:
+            via["effect_objects"] = rng.choice(["callback-effect", "effect-subclass"])
         if via:
             d["via"] = via
         self.program["datasets"][did] = d
